@@ -102,8 +102,8 @@ def step_sequence(f):
     return seq
 
 
-def c14b(prog, R):
-    r = R.rule("C14.b", "ingestion step order and lock span; both implementations agree", "O,L,G")
+def c14b(prog, R, rid="C14.b"):
+    r = R.rule(rid, "ingestion step order and lock span; both implementations agree", "O,L,G")
     L = LockFacts(prog, c06.CLASSES)
     seqs = {}
     for f in finishers(prog):
